@@ -233,7 +233,10 @@ var c03Hostile = []string{"/", "\\", "\x00", "%", "\n", "\t", "\r", "\x7f", "\x8
 var c03Seeds = []string{"..", ".", "...", "../x", "../../etc/passwd", "/etc/passwd", "a/b", "a/../b", "....//", ".. ", " ..", "..%2F", "%2e%2e", "%2E%2E%2F", "%2e%2e%2fx", "%zz", "%", "%1", "a%", "%%", "%25",
 	"%2", "%2g", "%G0", "%0G", "%ff", "%FF", "%00", "abc\n", "\nabc", "abc ", " ", "", "\\", "\t", "a\x00b", "CON", "nul", "a:b", "C:\\x", "~", "-", "_", "#", ":", ". .", "..#", "..:", "._private.pem",
 	"x_private.pem", "../x_private.pem", "admin-token-signing-key", "did:nuts:2pgo54Z3ytC5EdjBicuJPe5gHyAsjF6rVio1FadSX74j#GxL7A5XNFr_tHcBW_fKCndGGko8DKa2ivPgJAGR0krA",
-	"did:web:nodeA%3A10443:iam:aa00a18b-3d6d-46fd-867b-468819437d00#0", "did:web:example.com%3A8080:iam:..%2F..%2Fetc#0", "3f1c2a9e-5b7d-4c1a-9e2f-0a1b2c3d4e5f", "did:web:example.com:iam:../x#0"}
+	"did:web:nodeA%3A10443:iam:aa00a18b-3d6d-46fd-867b-468819437d00#0", "did:web:example.com%3A8080:iam:..%2F..%2Fetc#0", "3f1c2a9e-5b7d-4c1a-9e2f-0a1b2c3d4e5f", "did:web:example.com:iam:../x#0",
+	// DID-URL-shaped names: path segments, dot segments, query
+	"did:web:x/../k#0", "did:web:x/../../k#0", "did:web:x/../../tmpdir/k#0", "did:web:x/../../outside/k?versionId=1#0", "did:web:example.com/iam/123?versionId=2#0",
+	"did:web:example.com%3A8080/iam/../../../k#0", "did:web:x/..#0", "did:web:x/.#0", "did:web:x/a#0", "did:web:x?y=1#0", "did:nuts:abc/../..#k", "did:web:x/..%2F..#0"}
 
 func c03Name(r *rand.Rand) string {
 	rs := func(n int) string {
@@ -246,6 +249,16 @@ func c03Name(r *rand.Rand) string {
 	pct := func() string {
 		const h = "0123456789abcdefABCDEFgG:@`/ "
 		return "%" + string(h[r.Intn(len(h))]) + string(h[r.Intn(len(h))])
+	}
+	if r.Intn(10) == 0 { // DID URL shape: did:<method>:<id>(/<segment>)*[?query]#fragment with dot segments among the segments
+		s := "did:" + []string{"web", "nuts", "x509", "key"}[r.Intn(4)] + ":" + []string{"x", "example.com", "example.com%3A8080", "a:b"}[r.Intn(4)]
+		for i, n := 0, r.Intn(5); i < n; i++ {
+			s += "/" + []string{"..", "..", ".", "iam", "tmpdir", "keys", "k", "%2e%2e", ""}[r.Intn(9)]
+		}
+		if r.Intn(3) == 0 {
+			s += "?" + []string{"versionId=1", "a=b&c=d", ""}[r.Intn(3)]
+		}
+		return s + "#" + []string{"0", "k", "key-1", ""}[r.Intn(4)]
 	}
 	switch r.Intn(10) {
 	case 0:
